@@ -181,6 +181,7 @@ func TestC05Replay(t *testing.T) {
 // ---------- (b) interleavings of two writers and a reader ----------
 
 type c05Race struct {
+	KindB    string `json:"kindB,omitempty"` // what the second writer does: set (default) | append | prepend | replace | add | delete
 	ChunksA  int    `json:"chunksA"`
 	ChunksB  int    `json:"chunksB"`
 	Reader   string `json:"reader"` // get | gat | none
@@ -222,7 +223,31 @@ func runC05Race(c c05Race, schedule []int, trace *[][2]int) (string, bool) {
 	setup.Close()
 	vA := fullValue{mkValue(100, c.ChunksA*p-b2i(c.ChunksA > 0)*7), 1}
 	vB := fullValue{mkValue(200, c.ChunksB*p-b2i(c.ChunksB > 0)*9), 2}
-	written = append(written, vA, vB)
+	cmdB := wire.Cmd{Kind: wire.Set, Key: key, Value: vB.Value, Flags: vB.Flags}
+	switch c.KindB {
+	case "", "set":
+		written = append(written, vA, vB)
+	case "replace", "add":
+		cmdB.Kind = map[string]wire.Kind{"replace": wire.Replace, "add": wire.Add}[c.KindB]
+		written = append(written, vA, vB)
+	case "delete":
+		cmdB = wire.Cmd{Kind: wire.Delete, Key: key}
+		written = append(written, vA)
+	case "append", "prepend":
+		// an append rewrites base+x as one value; the base may be any value written in full before
+		cmdB = wire.Cmd{Kind: wire.Append, Key: key, Value: vB.Value}
+		bases := append([]fullValue(nil), written...)
+		bases = append(bases, vA)
+		written = append(written, vA)
+		for _, b := range bases {
+			if c.KindB == "append" {
+				written = append(written, fullValue{append(append([]byte(nil), b.Value...), vB.Value...), b.Flags})
+			} else {
+				cmdB.Kind = wire.Prepend
+				written = append(written, fullValue{append(append([]byte(nil), vB.Value...), b.Value...), b.Flags})
+			}
+		}
+	}
 
 	gated := false
 	f.Before = func(r *fakemc.Req) {
@@ -261,7 +286,7 @@ func runC05Race(c c05Race, schedule []int, trace *[][2]int) (string, bool) {
 	gated = true
 	actors := []actor{
 		{func() { execHandler(hA, wire.Cmd{Kind: wire.Set, Key: key, Value: vA.Value, Flags: vA.Flags}, 0) }},
-		{func() { execHandler(hB, wire.Cmd{Kind: wire.Set, Key: key, Value: vB.Value, Flags: vB.Flags}, 0) }},
+		{func() { execHandler(hB, cmdB, 0) }},
 		{func() {
 			switch c.Reader {
 			case "get":
@@ -353,15 +378,21 @@ func TestC05Interleavings(t *testing.T) {
 		a, b    int
 		reader  string
 		preload bool
+		kindB   string
 	}
 	var shapes []shape
 	for a := 0; a <= 2; a++ {
 		for b := 0; b <= 2; b++ {
 			for _, rd := range []string{"get", "gat"} {
 				for _, pre := range []bool{false, true} {
-					shapes = append(shapes, shape{a, b, rd, pre})
+					shapes = append(shapes, shape{a, b, rd, pre, ""})
 				}
 			}
+		}
+	}
+	for _, kb := range []string{"append", "prepend", "replace", "add", "delete"} {
+		for a := 1; a <= 2; a++ {
+			shapes = append(shapes, shape{a, 1, "get", true, kb})
 		}
 	}
 	maxPerShape := 1500
@@ -373,7 +404,7 @@ func TestC05Interleavings(t *testing.T) {
 		if si%shards != shard {
 			continue
 		}
-		c := c05Race{ChunksA: sh.a, ChunksB: sh.b, Reader: sh.reader, Preload: sh.preload}
+		c := c05Race{ChunksA: sh.a, ChunksB: sh.b, Reader: sh.reader, Preload: sh.preload, KindB: sh.kindB}
 		var prefix []int
 		count := 0
 		complete := false
@@ -382,7 +413,7 @@ func TestC05Interleavings(t *testing.T) {
 			msg, interesting := runC05Race(c, prefix, &trace)
 			count++
 			total++
-			rec.Case(interesting, fmt.Sprintf("race|%d|%d|%s|%v|%v", sh.a, sh.b, sh.reader, sh.preload, trace), "interleaving-dfs")
+			rec.Case(interesting, fmt.Sprintf("race|%d|%d|%s|%v|%s|%v", sh.a, sh.b, sh.reader, sh.preload, sh.kindB, trace), "interleaving-dfs")
 			if msg != "" {
 				c.Schedule = make([]int, len(trace))
 				for i, tr := range trace {
@@ -430,6 +461,7 @@ func TestC05Random(t *testing.T) {
 			ChunksB: rapid.IntRange(0, 6).Draw(t, "chunksB"),
 			Reader:  rapid.SampledFrom([]string{"get", "gat"}).Draw(t, "reader"),
 			Preload: rapid.Bool().Draw(t, "preload"),
+			KindB:   rapid.SampledFrom([]string{"set", "set", "append", "prepend", "replace", "add", "delete"}).Draw(t, "kindB"),
 		}
 		c.Schedule = rapid.SliceOfN(rapid.IntRange(0, 2), 0, 30).Draw(t, "schedule")
 		var trace [][2]int
@@ -437,6 +469,6 @@ func TestC05Random(t *testing.T) {
 		if msg != "" {
 			t.Fatalf("C05 random interleaving %+v: %s", c, msg)
 		}
-		rec.Case(interesting, fmt.Sprintf("rnd|%d|%d|%s|%v|%v", c.ChunksA, c.ChunksB, c.Reader, c.Preload, trace), "interleaving-random")
+		rec.Case(interesting, fmt.Sprintf("rnd|%d|%d|%s|%v|%s|%v", c.ChunksA, c.ChunksB, c.Reader, c.Preload, c.KindB, trace), "interleaving-random")
 	})
 }
